@@ -8,7 +8,7 @@ def run(res, tier, seed, replay):
     res.corr_diffs, res.unknown = [], []
     fam = json.load(open(vlib.VERIF + "/tools/sigfam.json"))
     res.cov["rule"] = (f"real: will_return_boolean on every member of the {len(fam)}-type family (accepted iff the top-level return type is bool: includes fn() -> fn() -> bool, *const bool, Option<bool>, fn(fn(u8) -> bool) -> bool, unsafe/extern bool functions), refusal must be the boolean-gate panic with the target untouched, whether attempted on an ordinary thread or from a destructor running while the thread unwinds from an earlier panic; "
-                       "the assembly caller of C13 with the target forced to true/false: AL is the value, RSP and the six callee-saved registers are as before the call, for many register patterns; histories that force the result of the same bool functions again and again (flip and flip back within one injector, and across lifetimes): every call returns the value forced last whatever the argument, the original is back after scope exit; "
+                       "the assembly caller of C13 with the target forced to true/false: AL is the value, RSP and the six callee-saved registers are as before the call, for many register patterns; histories that force the result of the same bool functions again and again (flip and flip back within one injector, and across lifetimes): every call returns the value forced last whatever the argument, the original is back after scope exit; the same over bool functions packed 8 bytes apart in a code arena (each forced result must leave its neighbours alone); "
                        "sim: stub bytes of x86-64 / AArch64 for both values executed with the extracted semantics; distinct = distinct (type feature, outcome) / (value, pattern class)")
     res.cov["trusted_base"] = vlib.TRUSTED_COMMON + ["L0 x86-64 and A64 fragments", "the compact type syntax parser and renderer in extract/driver.ml", "harness/real abi.rs"]
     res.assumptions = ["32-bit ARM: the forced boolean installs a branch to return_true/return_false and reduces to C16", "dyn Trait return types are outside the modelled grammar"]
@@ -51,6 +51,8 @@ def run(res, tier, seed, replay):
                 t = rb.choice(["b0", "b1"]); ops += [f"I:{t}:bool:{rb.randint(0, 1)}", f"C:{t}"]
             lts.append(ops)
         hb.append((f"fb{i} b0,b1,fk0,fk1,fk2,fk3 " + "|".join(",".join(o) for o in lts), lts))
+    import arenalib
+    hb += [arenalib.gen(rb, f"pk{i}", mode="packedbool") for i in range(6 if tier == "quick" else 60)]       # bool functions packed 8 bytes apart, several forced through one injector
     histlib.check_histories(res, "c02", 0, seed + 100, "full", extra_lines=hb)
     # the stub on the real CPU
     exe = reallib.build(res)
